@@ -312,6 +312,15 @@ func (st *State) genCandidates(li *loopInfo, ws *writeSet) []candidate {
 				cur, ok := s.heap[hn]
 				return Forall([]Term{r}, Implies(Ne(r, ref), Eq(Select(cur, r), Select(entry, r)))), ok
 			})
+			if st.entry != nil {
+				if fe, ok := st.entry.heap[hn]; ok {
+					ea := st.entry.alloc
+					add("oldframe("+hn+";"+rnames[i]+")", func(s *State) (Term, bool) {
+						cur, ok := s.heap[hn]
+						return Forall([]Term{r}, Implies(And(Le(IntLit(0), r), Le(r, ea), Ne(r, ref)), Eq(Select(cur, r), Select(fe, r)))), ok
+					})
+				}
+			}
 		}
 		for i := range refs {
 			rg, ok := ranges[i]
